@@ -47,6 +47,9 @@ CHECKS = {
  'C10': dict(technique='Coq proof that the order-faithful model of yaep_read_grammar returns 0 iff no documented defect is present and that a nonzero code names a present defect (ok_iff_well_formed, code_names_defect); differential run of the implementation against the extracted deciders on grammars with injected defects',
              text='Theorems: C10_ok_iff and C10_code_names_defect for all terminal lists, rule lists and strictness values (case analysis along the checks, induction over the lists). Correspondence: impl = 0 <-> well_formed_b; impl = c -> defect_b c; error code and message recorded; a following parse is refused after a failure. Partial: the fixpoint computations (productive, reachable, nullable, loops) are modelled as the C loops compute them; their equivalence with the semantic notions is future work.',
              design='6 C10'),
+ 'C11': dict(technique='executable Coq model of the description language (byte-level lexer following yylex, recursive-descent parser for the conflict-free LALR grammar of sgramm.y, duplicate elimination and implicit codes with the start value regenerated from sgramm.y) + differential run: yaep_parse_grammar on the text vs yaep_read_grammar of the same binary on the grammar the model denotes',
+             text='Theorem so far: C11_implicit_codes_start (facts re-extracted from set_sgrammar: first implicit code 256, counter not overwritten before use). The model itself is tied by correspondence on printed grammars in all lexical variations and on byte-level mutations: same return code as the callback-defined twin, same parse results on sampled inputs, code 3 with a line number inside the text for texts outside the syntax, code 7 for a terminal described with two codes. Partial: the round-trip theorem print/parse for the model is future work.',
+             design='6 C11'),
  'C14': dict(technique='Coq refinement theorem for the API object model (objects_independent: the results seen on one object are those of its own sub-history) + differential run of random multi-object histories against the extracted model and against fresh-object replays',
              text='Theorems: C14_objects_independent, C14_error_state over all histories (induction on the call list). Correspondence: every setter / definition / error-code / parse call of a random history over 1-3 live objects returns what the model prescribes; every successful parse equals the same parse on a fresh object in a fresh process; no sanitizer report, no leak after everything is freed (LeakSanitizer), no double free in the tracked tree memory.',
              design='6 C14'),
